@@ -16,13 +16,16 @@ EOL == "EOL"
 Labels    == {"a", "b", "c", "d", "e", "t", "u", "x", "y", "tt", "cs", "baz", "'q w'", "'x y'", "taxon0000a", "taxon0000b"}
 NumToks   == {"0", "1", "2", "3", "4", "6"}
 RealToks  == {"1.5", "2.5", "4.25"}
-SeqToks   == {"ACGT", "AC", "GT", "ACG", "TTT", "TT", "01?", "1-0"}
-Comments  == {"[c]", "[&R]"}
+SeqToks   == {"ACGT", "AC", "GT", "ACG", "TTT", "TT", "01?", "1-0", "A", "T", "CG", "AG", ".C"}
+\* comments: plain, rooting, and metadata comments (FigTree / BEAST / NHX annotations, which the tree
+\* readers parse), including malformed metadata
+Comments  == {"[c]", "[&R]", "[&lnP=-1.5]", "[&rate=0.5]", "[&rate=2,x=\"q\"]", "[&&NHX:S=1:D=Y]", "[&h=1]", "[&h={1,2}]",
+              "[&k=1]", "[&k= ]", "[&k=]", "[&=1]", "[&k]", "[&k={1,2}]", "[&&NHX:a=1:b= ]", "[&W 1/2]"}
 FastaHdrs == {">a", ">b"}
 NumVal(t) == CASE t = "0" -> 0 [] t = "1" -> 1 [] t = "2" -> 2 [] t = "3" -> 3 [] t = "4" -> 4 [] t = "6" -> 6 [] OTHER -> -1
 IsNum(t)  == t \in NumToks
-SeqLen(t) == CASE t \in {"ACGT"} -> 4 [] t \in {"ACG", "TTT", "01?", "1-0"} -> 3 [] t \in {"AC", "GT", "TT"} -> 2
-               [] t \in {"a", "b", "c", "d", "t", "u", "x", "y", "e"} \cup NumToks -> 1
+SeqLen(t) == CASE t \in {"ACGT"} -> 4 [] t \in {"ACG", "TTT", "01?", "1-0"} -> 3 [] t \in {"AC", "GT", "TT", "CG", "AG", ".C"} -> 2
+               [] t \in {"a", "b", "c", "d", "t", "u", "x", "y", "e", "A", "T"} \cup NumToks -> 1
                [] t \in {"tt", "cs"} -> 2 [] t = "baz" -> 3 [] OTHER -> 0
 IsComment(t) == t \in Comments
 \* what the tokenizer never hands to the reader: comments always, line breaks unless captured
@@ -61,6 +64,16 @@ NxUnknownQuoted ==
   <<"#NEXUS", "BEGIN", "FOO", ";", "BAR", "baz", ";", "END", ";",
     "BEGIN", "TREES", ";", "TREE", "'q w'", "=", "(", "'x y'", ":", "1", ",", "b", ":", "2.5", ")", "e", ":", "0", ";", "END", ";">>
 
+NxMultistate ==
+  <<"#NEXUS", "BEGIN", "DATA", ";", "DIMENSIONS", "NTAX", "=", "2", "NCHAR", "=", "4", ";",
+    "FORMAT", "DATATYPE", "=", "DNA", "MATCHCHAR", "=", ".", ";",
+    "MATRIX", "a", "A", "{", "CG", "}", "GT", "b", ".C", "(", "AG", ")", "T", ";", "END", ";">>
+NxAnnotated ==
+  <<"#NEXUS", "BEGIN", "TREES", ";", "TREE", "t", "=", "[&R]", "[&lnP=-1.5]",
+    "(", "a", "[&h=1]", ":", "1", ",", "b", "[&h={1,2}]", ":", "2", ")", "[&rate=0.5]", ";", "END", ";">>
+NwAnnotated ==
+  <<"[&lnP=-1.5]", "(", "a", "[&rate=0.5]", ":", "1", ",", "b", "[&rate=2,x=\"q\"]", ":", "2", ")", "e", "[&&NHX:S=1:D=Y]", ";">>
+
 NwOne   == <<"(", "a", ",", "(", "b", ",", "c", ")", ")", ";">>
 NwList  == <<"(", "a", ":", "1", ",", "b", ":", "2.5", ")", "e", ":", "0", ";", "(", "(", "a", ",", "b", ")", ",", "c", ")", ";">>
 NwMixed == <<"[&R]", "(", "(", "a", ",", "b", ")", "e", ",", "'x y'", ")", ";", "a", ";">>
@@ -86,6 +99,9 @@ AllDocs == <<
     Doc("NxTranslate", "nexus", NxTranslate, "dna", FALSE, FALSE),
     Doc("NxTwoTaxa", "nexus", NxTwoTaxa, "dna", FALSE, FALSE),
     Doc("NxUnknownQuoted", "nexus", NxUnknownQuoted, "dna", FALSE, FALSE),
+    Doc("NxMultistate", "nexus", NxMultistate, "dna", FALSE, FALSE),
+    Doc("NxAnnotated", "nexus", NxAnnotated, "dna", FALSE, FALSE),
+    Doc("NwAnnotated", "newick", NwAnnotated, "dna", FALSE, FALSE),
     Doc("NwOne", "newick", NwOne, "dna", FALSE, FALSE),
     Doc("NwList", "newick", NwList, "dna", FALSE, FALSE),
     Doc("NwMixed", "newick", NwMixed, "dna", FALSE, FALSE),
@@ -101,8 +117,10 @@ DocsOf(fam) == {AllDocs[i].toks : i \in DocIdx(fam)}
 \* ------------------------------------------------------------------ edit alphabets
 \* one representative per token class ("replace by / insert any class")
 ClassReps(fam) ==
-    CASE fam = "nexus"  -> {"BEGIN", "END", ";", "=", ",", "(", ")", ":", "a", "3", "ACGT", "[c]", "'q w'", EOL, "\"", "-", "{", "'", "["}
-      [] fam = "newick" -> {";", ",", "(", ")", ":", "a", "3", "[c]", "'q w'", "=", "'", "["}
+    CASE fam = "nexus"  -> {"BEGIN", "END", ";", "=", ",", "(", ")", ":", "a", "3", "ACGT", "[c]", "'q w'", EOL, "\"", "-", "{", "'", "[",
+                            "[&k=1]", "[&k= ]", "[&k=]", "[&=1]", "[&k]", "[&k={1,2}]", "[&&NHX:a=1:b= ]", "[&W 1/2]"}
+      [] fam = "newick" -> {";", ",", "(", ")", ":", "a", "3", "[c]", "'q w'", "=", "'", "[",
+                            "[&k=1]", "[&k= ]", "[&k=]", "[&=1]", "[&k]", "[&k={1,2}]", "[&&NHX:a=1:b= ]", "[&W 1/2]"}
       [] fam = "phylip" -> {EOL, "a", "3", "ACGT", "AC", "x?"}
       [] fam = "fasta"  -> {EOL, ">a", ">c", "ACGT", "x?"}
 Keywords(fam) ==
